@@ -53,7 +53,7 @@ def one_event(ck, eid, env, f, fj, asg, present, completion, want_sat, reuse=Fal
             else:
                 r = model.get_value(f, model_completion=completion)
         ev["res"] = "value"
-        ev["out"] = term_io.export(r)
+        ev["out"] = term_io.export_result(r)
         ev["rty"] = term_io.export_type(r.get_type())
     except term_io.Unrepresentable:
         return None
